@@ -295,6 +295,39 @@ func runC05(r *vf.Run) {
 		d.Index()
 		return d
 	}})
+	cases = append(cases, c5{id: "every-length", crafted: true, ds: func(rng *rand.Rand) *gen.Dataset {
+		// (round 7) for EVERY length 0..320 (and around 4096 and 65536) three sibling values of that length in one column:
+		// a common stem, the stem with its last byte changed, and the stem one byte shorter, each on rows of its own; the
+		// same under column names of 1, 3 and 8 bytes, so that name + value (+ separator) passes every small size. A key
+		// buffer that is one byte short at one particular size merges two siblings.
+		d := &gen.Dataset{ID: "every-length"}
+		lens := []int{}
+		for n := 0; n <= 320; n++ {
+			lens = append(lens, n)
+		}
+		for _, c := range []int{4096, 32768, 65536} {
+			for n := c - 12; n <= c+3; n++ {
+				lens = append(lens, n)
+			}
+		}
+		for _, col := range []string{"t", "tag", "column_8"} {
+			for _, n := range lens {
+				stem := strings.Repeat("s", n)
+				sibs := []string{stem}
+				if n > 0 {
+					sibs = append(sibs, stem[:n-1]+"t", stem[:n-1]+"\x00")
+				}
+				for k, v := range sibs {
+					for rep := 0; rep <= k; rep++ {
+						d.Rows = append(d.Rows, oracle.Row{col: v, "u": fmt.Sprint(len(d.Rows))})
+					}
+				}
+			}
+		}
+		d.Unique = "u"
+		d.Index()
+		return d
+	}})
 	cases = append(cases, c5{id: "concat", crafted: true, ds: func(rng *rand.Rand) *gen.Dataset {
 		return gen.MakeDataset(rng, "concat", gen.DatasetOpts{Rows: 400, Concat: true, WithUnique: true})
 	}})
